@@ -61,6 +61,10 @@ func init() {
 		c11Op{name: "work on another document (build, save, reopen, render as template)", kind: "other"},
 		c11Op{name: "reopen", kind: "reopen"},
 		c11Op{name: "render-as-template", kind: "render"},
+		// after a render: calls on the OTHER documents of the family (the template's base, a sibling rendered
+		// from the same engine); the rendered document the history continues on must not change with them
+		c11Op{name: "on the template base: AddFooter(even,G)", kind: "hf-base", hf: "footer", typ: document.HeaderFooterTypeEven, def: c11Def{Text: "G", Call: "plain"}},
+		c11Op{name: "on a sibling render of the same engine: AddHeader(first,S) + AddFooter(default,S2)", kind: "hf-sibling"},
 	)
 	names := make([]string, len(c11Ops))
 	for i, o := range c11Ops {
@@ -98,6 +102,9 @@ type c11Inst struct {
 	base     *document.Document
 	baseDefs map[string]c11Def
 	eng      *document.TemplateEngine
+	onBase   int
+	onSib    int
+	sib      *document.Document
 }
 
 func (i *c11Inst) Enabled(op int) bool {
@@ -109,6 +116,10 @@ func (i *c11Inst) Enabled(op int) bool {
 		return i.reop < 1
 	case "render":
 		return i.rend < 1
+	case "hf-base":
+		return i.base != nil && i.onBase < 1
+	case "hf-sibling":
+		return i.base != nil && i.onSib < 1
 	}
 	return true
 }
@@ -172,6 +183,25 @@ func (i *c11Inst) Apply(op int) (string, []rep.Violation) {
 			}
 			i.doc = d
 			i.reop++
+			i.lastNT = true
+		case "hf-base":
+			err = i.base.AddFooter(o.typ, o.def.Text)
+			if err == nil {
+				i.baseDefs[o.hf+"|"+string(o.typ)] = o.def
+			}
+			i.onBase++
+			i.lastNT = true
+		case "hf-sibling":
+			sib, e := i.eng.RenderTemplateToDocument("t", document.NewTemplateData())
+			if e != nil || sib == nil {
+				viol = append(viol, rep.Violation{Sig: "template-render-failed|sibling", Clause: "render", What: fmt.Sprint(e)})
+				return
+			}
+			if err = sib.AddHeader(document.HeaderFooterTypeFirst, "S"); err == nil {
+				err = sib.AddFooter(document.HeaderFooterTypeDefault, "S2")
+			}
+			i.sib = sib
+			i.onSib++
 			i.lastNT = true
 		case "render":
 			eng := document.NewTemplateEngine()
@@ -239,7 +269,7 @@ func (i *c11Inst) Key() string {
 		}
 		refs += rep.Hash(i.base.VerifRelDump())
 	}
-	return strings.Join(ks, ";") + "|" + refs + "|" + i.doc.VerifRelDump() + fmt.Sprintf("|r%d t%d n%d", i.reop, i.rend, len(i.doc.Body.Elements)) + "|" + rep.Hash(i.doc.VerifShallowState())
+	return strings.Join(ks, ";") + "|" + refs + "|" + i.doc.VerifRelDump() + fmt.Sprintf("|r%d t%d n%d b%d s%d", i.reop, i.rend, len(i.doc.Body.Elements), i.onBase, i.onSib) + "|" + rep.Hash(i.doc.VerifShallowState())
 }
 
 // Deep: evaluate the saved package.
